@@ -13,10 +13,13 @@ package smtpconn
 //@ import gosmtp "github.com/emersion/go-smtp"
 // wrapClientErr annotates a client error; it touches nothing but the 552->452 rewrite inside the error value itself.
 //@ func (*C).wrapClientErr
-//@   prop C09
+//@   prop C09 C16
 //@   requires c != nil
 //@   modifies gosmtp.SMTPError.Code, gosmtp.SMTPError.EnhancedCode
 //@   ensures (result == nil) == (err == nil)
+// C16: the one reply maddy itself rewrites - 552 ("too many recipients" per RFC 5321 4.5.3.1.10) becomes 452 - is
+// rewritten coherently: the enhanced code's class follows.
+//@   ensures isType(err, "*gosmtp.SMTPError") && as(err, "*gosmtp.SMTPError") != nil && old(as(err, "*gosmtp.SMTPError").Code) == 552 ==> isType(result, "*exterrors.SMTPError") && as(result, "*exterrors.SMTPError").Code == 452 && as(result, "*exterrors.SMTPError").EnhancedCode[0] == 4
 //@ func (*C).Rcpt
 //@   prop C09
 //@   requires c != nil && c.cl != nil
